@@ -57,18 +57,19 @@ RULE = ("one case = (box nx,ny,nz in 8..16 quick / 8..48 thorough (plus a share 
         "cos(2*pi*k.p/N+phase) over every integer frequency k of the box (small boxes) or a random subset). The real filter runs on the "
         "input, on a second field, on a*x+b*y, on a circularly shifted x, with the companion low-pass(es), with the documented defaults written out, with fourier_pixels=round(shape[0]*px/res), and once more at the end of the history; the caller's "
         "array is compared before/after EVERY call; the gain of every DFT bin is "
-        "measured as fft(out)/fft(in) and compared with the Lean model's gain array; on tiny boxes the OUTPUT ARRAY is compared with the model's np.real(ifftn(fftn(x)*gain)). non-trivial = the measured gains contain a value "
+        "measured as fft(out)/fft(in) and compared with the Lean model's gain array; on tiny boxes the OUTPUT ARRAY is compared with the model's np.real(ifftn(fftn(x)*gain)), and the output on np.roll(x, s) with the model's pipeline on rollGrid d (-s) x. non-trivial = the measured gains contain a value "
         "> 0.5 and a value < 0.5 (the cutoff lies inside the box, something passes and something is stopped); distinct = distinct case content")
 ASSUMPTIONS = [
-    "numpy.fft: fftn/ifftn are linear and mutually inverse, diagonalise circular shifts, map real input to a Hermitian spectrum; "
-    "ifftshift rotates indices by n//2 (each probed on every run, see probes)",
+    "numpy.fft.fftn/ifftn compute, within round-off, the exact separable DFT pair of the model (dft3/idft3 with twiddles exp(-2 pi i/n)), for which linearity, inversion, the shift theorem and the "
+    "Hermitian symmetry of real input are PROVED (Props/C12.dft_is_transform_complex, dft_shift_theorem_complex, dft_hermitian_complex, idft_real_part_complex); these consequences are still probed on numpy.fft on every run, "
+    "and on tiny boxes the model's DFT itself is executed against the real output, also on the rolled input; ifftshift rotates indices by n//2 (probed)",
     "skimage.filters.gaussian(mask, sigma) = separable correlation with exp(-q^2/(2 sigma^2)) normalised to unit sum on offsets |q| <= int(4 sigma+0.5), "
     "mode='nearest' (probed on an impulse and on an edge step every run; the model executes this kernel with Lean's Float.exp)",
     "float64 arithmetic of numpy ~ exact arithmetic: hard-edge masks are compared exactly (integers), everything else within 1e-9",
     "'gain 1 inside cutoff-4s-1 / 0 outside cutoff+4s+1' is checked with the PROVED bounds of Props/C12.soft_gain_inside/outside: 1-gain <= tail3(ker, floor((4s+1)^2)), "
     "gain <= tail3(ker, ceil((4s+1)^2)-1), both evaluated by the driver on the executed kernel together with the per-bin hypotheses (fitsInside/fitsOutside); "
     "the judge adds only the FFT round-off 1e-9",
-    "'non-increasing in between' is a clause of the statement at 1e-9 exactly where it is a theorem (Props/C12.soft_eff_gain_mono_step: every step of one index away from frequency 0 on an axis whose ball stays off both faces of the mask "
+    "'non-increasing in between' is a clause of the statement at 1e-9 exactly where it is a theorem (Props/C12.soft_eff_gain_mono_step_full: every step of one index away from frequency 0 on an axis whose ball stays off both faces of the mask "
     "box — monoAxisOk, reported by the driver — at every position of the other indices; diagonal steps are chains of these). On the remaining axis/diagonal rays (the ball touches a face; mode='nearest' continues the mask and the unchanged "
     "code rises by up to ~4e-8) a rise is a finding only beyond tail3(ker, floor((4s+1)^2)), and only on boxes >= 8 per axis (the statement's sizes); measured: <= 0.4 % of that weight on 8..48 boxes",
     "the band-pass gain range [0,1] is checked on EVERY band-pass; failures with different edge widths are the open known finding C12-K1, failures of inverted bands (hp cutoff > lp cutoff) with equal widths are reported as C12-K2 (proposed), "
@@ -974,6 +975,8 @@ def run_impl(case):
             s = [int(aux.integers(0, n)) for n in dims]
             ys = np.asarray(f(np.roll(x, s, axis=(0, 1, 2)))).real
             out["shift"] = dict(s=s, dev=float(np.abs(ys - np.roll(yr, s, axis=(0, 1, 2))).max()))
+            if max(dims) <= TINY:
+                out["out_shift"] = _bits(ys)      # f(np.roll(x, s)); the model filters rollGrid d (-s) x (Props/C12.filter_grid_roll_complex)
             # complement / difference of the companion low-passes (same parameters)
             if case["kind"] == "high":
                 out["compl_dev"] = float(np.abs(yr - (x - f.low(x, ""))).max())
@@ -1074,6 +1077,8 @@ def requests(case, obs):
             out.append(dict(op="res2pix", edge=case["dims"][0], px=case["px"], res=case[c]["res"]))
     if max(case["dims"]) <= TINY and "out" in obs:
         fq = dict(rq, op="filter", x=_bits(_field(tuple(case["dims"]), case["input"]["seed"])))
+        if "out_shift" in obs:
+            fq["roll"] = [-int(v) for v in obs["shift"]["s"]]     # np.roll(x, s)[i] = x[(i - s) mod n] = x[rollIdx d (-s) i]
         out.append(fq)
     return out
 
@@ -1092,9 +1097,9 @@ def mono_axis_ok(n, r):
 
 
 def _proved_mono_violation(low, dims, ok):
-    """Props/C12.soft_eff_gain_mono_step on the measured gain: every single step of one index away from frequency 0 along an axis whose
-    ball stays off the faces (ok[axis]), at EVERY position of the other two indices, not landing on the Nyquist bin of an even axis.
-    (Diagonal steps are chains of these.) -> (largest increase, where)"""
+    """Props/C12.soft_eff_gain_mono_step_full on the measured gain: every single step of one index away from frequency 0 along an axis whose
+    ball stays off the faces (ok[axis]), at EVERY position of the other two indices, INCLUDING the step onto the Nyquist bin of an even axis
+    (-(n/2-1) -> -n/2; proved in Lemmas/C12_Nyq). (Diagonal steps are chains of these.) -> (largest increase, where)"""
     worst = (0.0, None)
     for ax in range(3):
         n = dims[ax]
@@ -1110,6 +1115,13 @@ def _proved_mono_violation(low, dims, ok):
                 if m > worst[0]:
                     j = np.unravel_index(int(np.argmax(inc)), inc.shape)
                     worst = (m, (ax, sgn * a, sgn * (a + 1), tuple(int(v) for v in j)))
+        if n % 2 == 0 and n >= 4:                     # the Nyquist landing -(n/2-1) -> -n/2 (that bin is its own mirror image)
+            i0, i1 = (-(n // 2 - 1)) % n, n // 2
+            inc = g[i1] - g[i0]
+            m = float(inc.max())
+            if m > worst[0]:
+                j = np.unravel_index(int(np.argmax(inc)), inc.shape)
+                worst = (m, (ax, -(n // 2 - 1), -(n // 2), tuple(int(v) for v in j)))
     return worst
 
 
@@ -1323,6 +1335,18 @@ def judge(case, obs, resps):
             if not (dv.max() <= TOL * sc):
                 jj = tuple(int(v) for v in np.argwhere(~(dv <= TOL * sc))[0])
                 out.append(dict(kind="corr", clause="filter-vs-model", detail=f"voxel {jj}: filtered value {yo[jj]:.12g}, model {ym[jj]:.12g}; max deviation {dv.max():.3g}"))
+            # the same pipeline on the model's rolled array (rollGrid / rollIdx, the shift of filt_shift_complex) against the real
+            # code's output on np.roll(x, s): ties the theorem's notion of a circular shift to numpy's
+            if "out_shift" in obs:
+                if "out_roll" not in fr[0]:
+                    out.append(dict(kind="corr", clause="shift-vs-model", detail="no model output for the rolled input of a tiny box"))
+                else:
+                    yms = np.array([b2f(b) for b in fr[0]["out_roll"]]).reshape(dims)
+                    yos = np.array([b2f(b) for b in obs["out_shift"]]).reshape(dims)
+                    dvs = np.abs(yms - yos)
+                    if not (dvs.max() <= TOL * sc):
+                        jj = tuple(int(v) for v in np.argwhere(~(dvs <= TOL * sc))[0])
+                        out.append(dict(kind="corr", clause="shift-vs-model", detail=f"input rolled by {obs['shift']['s']}, voxel {jj}: filtered value {yos[jj]:.12g}, model on rollGrid {yms[jj]:.12g}; max deviation {dvs.max():.3g}"))
     if "waves" in obs:
         for kx, ky, kz, gb, im in obs["waves"]:
             ref = eff[kx % dims[0], ky % dims[1], kz % dims[2]]
@@ -1423,6 +1447,10 @@ def stats(case, obs, resps):
     if "out" in obs and fr_:
         dvf = float(np.abs(np.array([b2f(b) for b in fr_[0]["out"]]) - np.array([b2f(b) for b in obs["out"]])).max())
         st["filter_output_vs_model_dft"] = "<1e-13" if dvf < 1e-13 else ("<1e-11" if dvf < 1e-11 else ("<1e-9" if dvf < 1e-9 else ">=1e-9"))
+    if "out_shift" in obs and fr_ and "out_roll" in fr_[0]:
+        dvs = float(np.abs(np.array([b2f(b) for b in fr_[0]["out_roll"]]) - np.array([b2f(b) for b in obs["out_shift"]])).max())
+        st["rolled_output_vs_model_rollGrid"] = "<1e-13" if dvs < 1e-13 else ("<1e-11" if dvs < 1e-11 else ("<1e-9" if dvs < 1e-9 else ">=1e-9"))
+        st["roll_shift_nonzero_axes"] = str(sum(1 for v in obs["shift"]["s"] if v != 0))
     if "waves" in obs:
         n = len(obs["waves"])
         st["plane_waves"] = "1-20" if n <= 20 else ("21-100" if n <= 100 else ("101-500" if n <= 500 else ">500"))
@@ -1507,22 +1535,31 @@ def probes(rng):
 LEVEL_TEXT = ("Lean 4 theorems about an executable model of cryomap.lowpass/highpass/bandpass, get_filter_radius, resolution2pixels and the "
               "spherical_mask transfer function: the filters are linear, real-valued, shift-commuting Fourier multipliers for every transform pair "
               "with the DFT's algebraic properties, and the model's own separable DFT (executed by the driver) is PROVED to be such a pair over every field "
-              "with primitive roots of unity, in particular over the complex numbers with numpy's twiddles; high-pass = identity - low-pass and band-pass = "
+              "with primitive roots of unity, in particular over the complex numbers with numpy's twiddles; for that DFT the SHIFT THEOREM (dft of the rolled sequence = phase x dft, 1-D by "
+              "re-indexing the sum with the rotation, lifted through the three axes) and the HERMITIAN SYMMETRY of the spectrum of a real map (conjugation theorem, Re(ifftn Y) = ifftn(Hermitian part of Y)) "
+              "are proved too, so every operator theorem has a corollary *_complex with NO hypothesis on the transform left: the three filters commute with np.roll, a real map filtered with an even gain "
+              "(the hard filters) has output spectrum = gain x input spectrum, and with ANY real gain output spectrum = effective gain (g(k)+g(-k))/2 x input spectrum on the box - the array the driver "
+              "materialises and the harness compares with the measured gain; high-pass = identity - low-pass and band-pass = "
               "difference of its two low-passes; the hard-edge gain is 1 exactly for integer frequency radius^2 <= cutoff^2 and 0 beyond, on boxes of any size "
               "and shape, and is even (np.real drops nothing); with any non-negative unit-sum kernel (the model's Gaussian kernel is proved to be one for every "
               "positive exponential) the gain lies in [0,1], and for sqrt(A)+sqrt(m) <= cutoff (resp. sqrt(A) > cutoff+sqrt(m)) a bin of squared radius A has "
               "1-gain (resp. gain) <= the kernel weight at offsets of squared length > m, which is 0 beyond the kernel's reach sqrt(3)*t (exact plateaus); the gain "
               "is non-increasing along every step (axis-parallel or diagonal) that moves indices away from frequency 0 for symmetric unimodal kernels (the model's kernel is one for every positive monotone "
-              "exponential) when the ball stays off the box faces on the moving axes, for the raw and for the effective (np.real-symmetrised, measured) gain; the band-pass gain lies in [-1,1] and in [0,1] for nested equal-width masks, with kernel-checked "
+              "exponential) when the ball stays off the box faces on the moving axes, for the raw and for the effective (np.real-symmetrised, measured) gain - for the latter also onto the Nyquist bin of an even axis - (the high-pass gain non-decreasing); the face hypothesis is proved NECESSARY "
+              "(soft_monotone_false_at_face) and the literal 'non-increasing in the radius' across different directions is proved FALSE (soft_monotone_radial_false); the band-pass gain lies in [-1,1] and in [0,1] for nested equal-width masks, with kernel-checked "
               "witnesses of negative gains otherwise (C12-K1); round-half-even characterisation of resolution2pixels. Tied to the source by 18 regenerated anchors that do not depend on local variable names (control-flow paths with locals "
               "inlined, alpha-renamed bodies, signatures and defaults), "
               "by measuring the real filters' gains (fft(out)/fft(in), random fields and plane waves at every integer frequency) against the model's gain arrays, and "
-              "on boxes <= 8 per axis by comparing the real OUTPUT ARRAY with the model's np.real(ifftn(fftn(x)*gain)) executed on the model's DFT")
+              "on boxes <= 8 per axis by comparing the real OUTPUT ARRAY with the model's np.real(ifftn(fftn(x)*gain)) executed on the model's DFT, for the input and for the input rolled with the model's own "
+              "rollGrid/rollIdx (the shift the theorems speak about) against the real output on np.roll(x, s)")
 LEVEL_NOTE = ("partial: the literal '= 1 inside cutoff-4s-1, = 0 outside cutoff+4s+1' is false in exact arithmetic for margins below the kernel reach (proved: "
               "soft_edge_full_false_below_reach); proved and checked instead: the deviation is at most the kernel tail weight beyond the margin (<=3.4e-4 for s<=4), "
               "computed by the driver; 'non-increasing in between' is proved (raw and effective gain, axis-parallel and diagonal steps) only where the ball stays off the faces of "
-              "the mask box on the moving axes; where it touches a face it is not a theorem (the code rises by ~4e-8) and rises are only bounded by the kernel tail along the 26 rays; the DFT shift theorem and the Hermitian-symmetry facts used by "
-              "filt_shift/filt_effective_gain remain hypotheses (probed on numpy.fft); skimage.filters.gaussian is modelled by a recorded, probed assumption; floating "
+              "the mask box on the moving axes; where it touches a face it is refuted in general (soft_monotone_false_at_face: a rise of 1/128 with a 5-tap kernel; the code rises by ~4e-8) and rises are only CHECKED against the kernel tail along the 26 rays "
+              "(that bound is not proved: Props/C12.SoftMonotoneOpen is the only open part of the clause); the step of an index ONTO the Nyquist bin of an even axis is now proved for the effective gain too "
+              "(soft_eff_gain_mono_step_full) and judged; the literal radial order across directions is false "
+              "(soft_monotone_radial_false) and is not part of the check; the DFT shift theorem and the Hermitian-symmetry facts are now PROVED for the model's DFT (filt_shift_complex, "
+              "filt_even_gain_complex, filt_effective_gain_complex carry no hypothesis); what stays assumed is that numpy.fft computes that DFT within round-off (probed); skimage.filters.gaussian is modelled by a recorded, probed assumption; floating "
               "point vs exact arithmetic within 1e-9; band-pass gain range [0,1] is proved for nested masks with equal widths only; it is CHECKED on every band-pass: with different widths "
               "(open known finding C12-K1) and for inverted bands (C12-K2, proposed) the real gains are negative")
 TECHNIQUE = "Lean 4 proof (multiplier algebra over modules, integer index arithmetic, weighted-sum inequalities over ordered fields) + regenerated anchors + measured-gain correspondence"
